@@ -145,6 +145,13 @@ func (di *docValueReader) loadDvChunk(chunkNumber uint64, s *Segment) error {
 	destChunkDataLoc += start
 	curChunkEnd += end
 
+	// the header is rebuilt in place below: until the new chunk is loaded
+	// completely no chunk is cached, so that a read error in between does
+	// not leave the previous chunk's data behind a mixed header
+	di.curChunkNum = math.MaxInt64
+	di.curChunkData = nil
+	di.uncompressed = di.uncompressed[:0]
+
 	// read the number of docs reside in the chunk
 	numDocsData, err := s.data.Read(int(destChunkDataLoc), int(destChunkDataLoc+binary.MaxVarintLen64))
 	if err != nil {
